@@ -114,6 +114,10 @@ class C01(Check):
         return env.n(60, 2500)
 
     def execute(self, case, env):
+        out = self._execute(case, env)
+        return arch.tag_kf47(out, [(case["filters"], [arch.member_bytes(m) for m in case["members"]])])
+
+    def _execute(self, case, env):
         out = Outcome()
         members = case["members"]
         filters, password = case["filters"], case["password"]
@@ -169,11 +173,11 @@ class C01(Check):
                 except Exception as e:
                     cls, frame = arch.exc_sig(e)
                     sig = dict(sig_base, kind="write-raises", exc=cls, frame=frame)
-                    if cls in ("RecursionError", "OSError") and case["target"] == "multivolume":
-                        # KF-45 (open, dependency): multivolumefile.MultiVolume.write() recurses once per volume and keeps every
-                        # volume open; one write spanning ~1000 volumes cannot succeed
+                    if case["target"] == "multivolume":
+                        # KF-45 (open, dependency): multivolumefile.MultiVolume keeps every volume open and its write() recurses
+                        # once per volume: an archive of more than ~900 volumes cannot be written or read back
                         sig["target"] = "multivolume"
-                        sig["volumes_over_900"] = sum(lens) // max(1, case.get("volume") or 1) > 900
+                        sig["volumes_over_900"] = max(sum(lens) // max(1, case.get("volume") or 1), tgt.volumes()) > 900
                     out.violate(sig, observed=repr(e)[:300], expected="archive written")
                     return out
                 tgt.release()
@@ -182,8 +186,11 @@ class C01(Check):
                     names, got = arch.read_all(tgt.for_read(), password)
                 except Exception as e:
                     cls, frame = arch.exc_sig(e)
-                    out.violate(dict(sig_base, kind="read-raises", exc=cls, frame=frame), observed=repr(e)[:300],
-                                expected="members delivered")
+                    sig = dict(sig_base, kind="read-raises", exc=cls, frame=frame)
+                    if case["target"] == "multivolume" and tgt.volumes() > 900:
+                        sig["target"] = "multivolume"  # KF-45
+                        sig["volumes_over_900"] = True
+                    out.violate(sig, observed=repr(e)[:300], expected="members delivered")
                     return out
                 finally:
                     tgt.release()
